@@ -410,7 +410,7 @@ def once_rule(ctx, rule):
     prog = ctx.prog
     f = prog.fn("receiver::receiver::Receiver::push_obj")
     ctx.analysed(f.path)
-    t = polarity.Table(f, name_sign={"sbn": r"^payload_id(~\d+)?\.sbn$", "esi": r"^payload_id(~\d+)?\.esi$"},
+    t = polarity.Table(f, name_sign={"sbn": r"^\w+(~\d+)?\.sbn$", "esi": r"^\w+(~\d+)?\.esi$"},
                        name_bool={"completed": r"contains_key\(&self\.objects_completed", "once": r"^self\.config\.object_receive_once$",
                                   "errored": r"contains\(&self\.objects_error"},
                        call_filter=r"ObjectReceiver::push$|Receiver::create_obj$|BTreeMap.*::remove$|BTreeSet.*::remove$|HashMap.*::remove$|HashSet.*::remove$")
